@@ -30,21 +30,36 @@ Blank == [x \in Nodes |-> 0]
 \* A restart after a CRASH is found again by its old peers (their reconnect loop dials failed members), so
 \* it comes back into its old cluster; a start after a graceful leave (or a first start) is a fresh node
 \* that nobody dials: its old peers keep what they knew about the previous incarnation.  With a snapshot a
-\* crashed node also re-joins by itself the members it last knew alive (handleRejoin); a snapshot that ends
-\* with a graceful leave re-joins nobody.
+\* crashed node also re-joins by itself whoever runs now at the address of a member it last knew alive
+\* (handleRejoin; what a node knows is frozen while it is down: its snapshot cannot learn); a snapshot that
+\* ends with a graceful leave re-joins nobody.
+\* Knowledge value 6 ("uncertain acquaintance"): two members that were brought into one cluster while a partition
+\* kept them apart.  Whether n ever hears of m depends on what the go-between still believed about m (memberlist
+\* does not pass on members it holds dead): if m runs in n's cluster when the healed network is quiet n must list
+\* it alive; if m went down before, absent, failed and left are all legitimate.
 Finders(x) == { m \in Nodes \ {x} : st[m] = 1 /\ know[m][x] = 3 }
+Targets(x) == IF Snap THEN { m \in Nodes \ {x} : st[m] = 1 /\ know[x][m] = 1 /\ SameSide(x, m) } ELSE {}
+Meet(n, m, old) == IF SameSide(n, m) \/ old = 1 THEN 1 ELSE 6
 Start(x) ==
   /\ st[x] # 1
   \* not generated: a restart after a graceful leave that some running member has not learned of yet (5).  That member
   \* holds the old incarnation as failed and dials it; whether it finds the new node before state sync tells it of the
   \* leave is a race with two legitimate outcomes (joined again / stays apart), which this deterministic model does not carry.
   /\ ~(st[x] = 2 /\ \E n \in Nodes \ {x} : st[n] = 1 /\ know[n][x] = 5)
+  \* likewise not generated: a restart of a node about which a running member holds an uncertain acquaintance (6: it may
+  \* or may not be dialling the old incarnation), or whose own snapshot may or may not list a running member (6)
+  /\ ~(st[x] \in {2, 3} /\ \E n \in Nodes \ {x} : st[n] = 1 /\ know[n][x] = 6)
+  /\ ~(st[x] = 3 /\ Snap /\ \E m \in Nodes \ {x} : st[m] = 1 /\ know[x][m] = 6)
   /\ st' = [st EXCEPT ![x] = 1]
-  /\ IF st[x] = 3 /\ (Finders(x) # {} \/ (Snap /\ \E m \in Nodes \ {x} : st[m] = 1 /\ know[x][m] = 1))
-       THEN LET grp == { m \in comp[x] : st[m] = 1 } \cup {x} IN
-            /\ comp' = comp
-            /\ know' = [n \in Nodes |-> IF n = x THEN [m \in Nodes |-> IF m \in grp THEN 1 ELSE 0]
-                                         ELSE IF n \in grp THEN [know[n] EXCEPT ![x] = 1] ELSE know[n]]
+  /\ IF st[x] = 3 /\ (Finders(x) \cup Targets(x)) # {}
+       THEN LET grp  == UNION { comp[m] : m \in Finders(x) \cup Targets(x) } \cup {x}
+                live == { m \in grp : st[m] = 1 } \cup {x} IN
+            /\ comp' = [m \in Nodes |-> IF m \in grp THEN grp ELSE comp[m] \ {x}]
+            /\ know' = [n \in Nodes |->
+                          IF n = x THEN [m \in Nodes |-> IF m = x THEN 1 ELSE IF m \in live THEN Meet(x, m, 0) ELSE 0]
+                          ELSE IF n \in live
+                                 THEN [m \in Nodes |-> IF m \in live /\ m # n /\ know[n][m] # 1 THEN Meet(n, m, 0) ELSE know[n][m]]
+                                 ELSE know[n]]
        ELSE /\ comp' = [m \in Nodes |-> IF m = x THEN {x} ELSE comp[m] \ {x}]
             /\ know' = [know EXCEPT ![x] = [Blank EXCEPT ![x] = 1]]
   /\ last' = [a |-> "start", x |-> x]
@@ -55,21 +70,22 @@ Join(x, y) ==
   /\ LET grp == comp[x] \cup comp[y]
          live == { m \in grp : st[m] = 1 } IN
      /\ comp' = [m \in Nodes |-> IF m \in grp THEN grp ELSE comp[m]]
-     /\ know' = [n \in Nodes |-> IF n \in live THEN [m \in Nodes |-> IF m \in live THEN 1 ELSE know[n][m]] ELSE know[n]]
+     /\ know' = [n \in Nodes |-> IF n \in live THEN [m \in Nodes |-> IF m \in live /\ know[n][m] # 1 THEN Meet(n, m, 0) ELSE know[n][m]] ELSE know[n]]
   /\ last' = [a |-> "join", x |-> x, y |-> y]
   /\ passive' = passive \ {x}
   /\ UNCHANGED <<st, part>>
 Leave(x) ==         \* graceful leave followed by shutdown, issued while connected to a running member of its cluster
   /\ st[x] = 1 /\ \E y \in (comp[x] \cap Running) \ {x} : SameSide(x, y)
   /\ st' = [st EXCEPT ![x] = 2]
-  \* members cut off from x at that moment (5) learn of the leave only by state sync after the heal
-  /\ know' = [n \in Nodes |-> IF n # x /\ know[n][x] = 1 THEN [know[n] EXCEPT ![x] = IF SameSide(n, x) THEN 2 ELSE 5] ELSE know[n]]
+  \* members cut off from x at that moment (5) learn of the leave only by state sync after the heal; what a node
+  \* that is down knew stays as it was
+  /\ know' = [n \in Nodes |-> IF n # x /\ st[n] = 1 /\ know[n][x] = 1 THEN [know[n] EXCEPT ![x] = IF SameSide(n, x) THEN 2 ELSE 5] ELSE know[n]]
   /\ last' = [a |-> "leave", x |-> x]
   /\ UNCHANGED <<comp, part, passive>>
 Crash(x) ==
   /\ st[x] = 1
   /\ st' = [st EXCEPT ![x] = 3]
-  /\ know' = [n \in Nodes |-> IF n # x /\ know[n][x] = 1 THEN [know[n] EXCEPT ![x] = 3] ELSE know[n]]
+  /\ know' = [n \in Nodes |-> IF n # x /\ st[n] = 1 /\ know[n][x] = 1 THEN [know[n] EXCEPT ![x] = 3] ELSE know[n]]
   /\ last' = [a |-> "crash", x |-> x]
   /\ UNCHANGED <<comp, part, passive>>
 Partition(S) ==
@@ -96,6 +112,7 @@ Allowed(n, x) ==
     [] know[n][x] = 2 -> {3}
     [] know[n][x] = 3 -> {4}
     [] know[n][x] = 5 -> IF Witnessed(n, x) THEN {3} ELSE {3, 4}
+    [] know[n][x] = 6 -> IF st[x] = 1 /\ x \in comp[n] THEN {1} ELSE {0, 3, 4}
     [] OTHER          -> {0}
 Wrong(v) == { <<n, x>> \in Nodes \X Nodes : st[n] = 1 /\ n # x /\ v[n + 1][x + 1] \notin Allowed(n, x) }
 SelfWrong(v) == { n \in Nodes : st[n] = 1 /\ v[n + 1][n + 1] # 1 }
